@@ -313,7 +313,7 @@ def run(ctx):
         dead = [o for o in OPT_NAMES if o != 'verbose' and eff[o][1] == 0]
         if dead:
             raise core.MachineryError('vacuous: option(s) %s never changed a dimensionless value' % dead)
-    fails, stats = core.validate_traces('Trace_UnitsWrap', 'Trace', traces)
+    fails, stats = core.validate_traces('Trace_UnitsWrap', 'Trace', traces, shards=ctx.pick(8, 16))
     ctx.count('traces_validated_against_impl', len(traces))
     ctx.coverage['trace_lines'] = stats['lines']
     for tid, idx, clause in fails:
